@@ -4,6 +4,8 @@ import (
 	"fmt"
 	"strings"
 	"sync"
+	"sync/atomic"
+	"time"
 
 	"github.com/simonvetter/modbus"
 )
@@ -144,6 +146,40 @@ func init() {
 				res.Add(Finding{Kind: "property", Check: "crc", Line: c.line, Impl: c.impl, Expect: p[1], Note: "checksum differs from bit-serial CRC-16/MODBUS"})
 			} else if p[0] != c.impl {
 				res.Add(Finding{Kind: "correspondence", Check: "crc", Line: c.line, Impl: c.impl, Expect: p[0]})
+			}
+		}
+		// (1b) frames assembled concurrently by several goroutines (as several RTU clients / server
+		// sessions in one process do): each must carry its own CRC
+		{
+			var cwg sync.WaitGroup
+			var bad int64
+			var firstBad atomic.Value
+			per := scale(tier, 60000, 400000)
+			for g := 0; g < 8; g++ {
+				cwg.Add(1)
+				go func(g int) {
+					defer cwg.Done()
+					gr := NewRng(seed).Fork(uint64(600 + g))
+					pl := gr.Bytes(1 + gr.Intn(20))
+					for i := 0; i < per; i++ {
+						pl[0] = byte(i)
+						fr := modbus.VerifAssembleRTU(byte(g+1), 3, pl)
+						c := refCRC(fr[:len(fr)-2])
+						if fr[len(fr)-2] != byte(c) || fr[len(fr)-1] != byte(c>>8) {
+							if atomic.AddInt64(&bad, 1) == 1 {
+								firstBad.Store(hx(fr))
+							}
+						}
+					}
+				}(g)
+			}
+			cwg.Wait()
+			res.Evaluations += 8 * per
+			res.Eval("concurrent-assembly", true, fmt.Sprintf("8 goroutines x %d frames assembled concurrently", per))
+			if bad > 0 {
+				fb, _ := firstBad.Load().(string)
+				res.Add(Finding{Kind: "property", Check: "sent-frame-crc", Line: fmt.Sprintf("8 goroutines assembling RTU frames concurrently (%d frames each)", per), Impl: fmt.Sprintf("%d frames with a foreign CRC, e.g. %s", bad, fb),
+					Expect: "every frame ends with the CRC of its own bytes", Note: "frames assembled at the same time by different transports got each other's CRC"})
 			}
 		}
 		// (2) transition digest
@@ -289,6 +325,15 @@ func init() {
 							}
 							line, impl, _ := s.exchange(op, "timeout", true, func(w wireReq) [][]byte { return randomChunks(wr, bad) })
 							local = append(local, [2]string{line, impl})
+							// every RTU frame SENT ends with the CRC of the preceding bytes (16 clients
+							// assemble frames concurrently in this process)
+							if sent := unhx(strings.SplitN(field(impl, "w"), "|", 2)[0]); len(sent) >= 4 {
+								c := refCRC(sent[:len(sent)-2])
+								if sent[len(sent)-2] != byte(c) || sent[len(sent)-1] != byte(c>>8) {
+									res.Add(Finding{Kind: "property", Check: "sent-frame-crc", Line: line, Impl: hx(sent), Expect: fmt.Sprintf("…%02x%02x", byte(c), byte(c>>8)),
+										Note: "a request frame written by the RTU client does not end with the CRC-16/MODBUS of its preceding bytes"})
+								}
+							}
 							res.Eval("corrupt/"+base.label+op.Name+"/"+c.label+"/"+field(impl, "r"), true, line+" => "+impl)
 							res.Count("corruption:" + base.label + c.label)
 							if isOK(impl) {
@@ -319,6 +364,64 @@ func init() {
 			}(wi)
 		}
 		wg2.Wait()
+		pacedResync(res)
 		return modelCheck("cex", pairs, res)
+	}
+}
+
+// pacedResync: a correct device answers at line rate (one character time per byte); a single bit
+// flipped in the byte count makes the reply look shorter than it is, the CRC test fails, and the
+// rest of the reply is still arriving. After the rejection the next exchange with that device must
+// succeed (the re-synchronisation wait has to outlast the longest frame).
+func pacedResync(res *Result) {
+	for _, rate := range []uint{9600, 19200} {
+		for _, qty := range []uint16{60, 100} {
+			t1, _ := modbus.VerifSerialTimings(rate)
+			conn := &TimedConn{}
+			mc, _, err := newTimedClient("rtuovertcp", conn, time.Second, rate)
+			if err != nil {
+				res.Note("paced resync: " + err.Error())
+				return
+			}
+			exchange := 0
+			conn.OnWrite = func(b []byte, at time.Time) {
+				w := parseWire(true, b)
+				if !w.ok {
+					return
+				}
+				exchange++
+				pl := validReplyPayload(NewRng(uint64(exchange)), w.fc, w.payload)
+				if exchange == 1 {
+					pl[0] ^= 0x40 // byte count 2*qty with bit 6 flipped: a shorter frame is inferred
+					fr := rtuFrame(w.unit, w.fc, pl)
+					pl[0] ^= 0x40
+					good := rtuFrame(w.unit, w.fc, pl)
+					fr[len(fr)-2], fr[len(fr)-1] = good[len(good)-2], good[len(good)-1] // the device's CRC is the one of the uncorrupted frame
+					go func() {
+						for i := range fr {
+							conn.Feed(fr[i : i+1])
+							time.Sleep(t1)
+						}
+					}()
+					return
+				}
+				conn.Feed(rtuFrame(w.unit, w.fc, pl))
+			}
+			op := &Op{Name: "ReadRegisters", Addr: 0x100, Qty: qty}
+			out1, hung1 := execBounded(op, mc, 5*time.Second)
+			out2, hung2 := execBounded(op, mc, 5*time.Second)
+			line := fmt.Sprintf("rtuovertcp at %d bps, ReadRegisters qty %d: reply paced at one character time per byte with bit 6 of the byte count flipped; then a clean exchange", rate, qty)
+			res.Eval(fmt.Sprintf("paced-resync/%d/%d", rate, qty), true, line+" => "+shorten(out1, 30)+" ; "+shorten(out2, 30))
+			if strings.HasPrefix(out1, "ok:") {
+				res.Add(Finding{Kind: "property", Check: "corruption-accepted", Line: line, Impl: out1, Expect: "an error"})
+			}
+			if !strings.HasPrefix(out2, "ok:") || hung1 || hung2 {
+				res.Add(Finding{Kind: "property", Check: "resync-paced", Line: line, Impl: out1 + " ; " + out2, Expect: "second exchange ok",
+					Note: "after a rejected corrupted reply that was still arriving at line rate, the next exchange with a well-behaved device failed"})
+			}
+			if !hung1 && !hung2 {
+				mc.Close()
+			}
+		}
 	}
 }
